@@ -1,8 +1,265 @@
-/-! Line-protocol driver for component `Batteries` (stub; the component owner replaces `run`). -/
+import Lean.Data.Json
+import PSO.Model.Batteries
+/-!
+Line-protocol driver for component `batteries`.
+
+request  (one JSON object per line):
+  {"cls": "counter"|"list"|"dict"|"set"|"queue"|"pq"|"heap", "side": "battery"|"ref",
+   "maxsize": null | n, "ops": [[name, arg...], ...]}
+    arguments: ints, booleans, lists of ints, lists of [k,v] pairs; an omitted optional argument is
+    simply absent; `reset` takes a tagged value (null | int | {"l":[..]} | {"d":[[k,v]..]} | {"s":[..]});
+    set `pop` carries the element the real `set.pop()` returned (the choice oracle);
+    `["snapshot"]` = deserialize(serialize(state)) into a freshly constructed battery.
+response: {"res": [value | {"e": "IndexError"}, ...], "state": value, "maxsize": n}
+-/
 namespace Driver.Batteries
+open Lean PSO.Py PSO.Batteries
+
+def valToJson : Val → Json
+  | .none => Json.null
+  | .int i => Json.num (JsonNumber.fromInt i)
+  | .bool b => Json.bool b
+  | .list l => Json.mkObj [("l", Json.arr (l.map (fun i => Json.num (JsonNumber.fromInt i))).toArray)]
+  | .dict d => Json.mkObj [("d", Json.arr (d.map (fun (k, v) =>
+      Json.arr #[Json.num (JsonNumber.fromInt k), Json.num (JsonNumber.fromInt v)])).toArray)]
+  | .set s => Json.mkObj [("s", Json.arr (s.map (fun i => Json.num (JsonNumber.fromInt i))).toArray)]
+
+def errName : Err → String
+  | .IndexError => "IndexError" | .ValueError => "ValueError" | .KeyError => "KeyError"
+  | .TypeError => "TypeError" | .AssertionError => "AssertionError" | .Full => "Full" | .Empty => "Empty"
+
+def resToJson : Res → Json
+  | .ok v => valToJson v
+  | .err e => Json.mkObj [("e", Json.str (errName e))]
+
+def getInts (j : Json) : Except String (List Int) := do
+  let a ← j.getArr?
+  a.toList.mapM (fun x => x.getInt?)
+
+def getPairs (j : Json) : Except String (List (Int × Int)) := do
+  let a ← j.getArr?
+  a.toList.mapM (fun x => do
+    let p ← x.getArr?
+    if p.size ≠ 2 then throw "pair expected"
+    let k ← p[0]!.getInt?
+    let v ← p[1]!.getInt?
+    pure (k, v))
+
+def getVal (j : Json) : Except String Val :=
+  match j with
+  | .null => pure .none
+  | .bool b => pure (.bool b)
+  | .num _ => do pure (.int (← j.getInt?))
+  | .obj _ =>
+    match j.getObjVal? "l", j.getObjVal? "d", j.getObjVal? "s" with
+    | .ok l, _, _ => do pure (.list (← getInts l))
+    | _, .ok d, _ => do pure (.dict (← getPairs d))
+    | _, _, .ok s => do pure (.set (← getInts s))
+    | _, _, _ => throw "bad tagged value"
+  | _ => throw "bad value"
+
+def optInt (a : Array Json) (i : Nat) : Except String (Option Int) :=
+  if h : i < a.size then
+    match a[i] with
+    | .null => pure .none
+    | j => do pure (some (← j.getInt?))
+  else pure .none
+
+def optBool (a : Array Json) (i : Nat) : Except String (Option Bool) :=
+  if h : i < a.size then do pure (some (← a[i].getBool?)) else pure .none
+
+def argInt (a : Array Json) (i : Nat) : Except String Int :=
+  if h : i < a.size then a[i].getInt? else throw s!"missing argument {i}"
+
+def argJson (a : Array Json) (i : Nat) : Except String Json :=
+  if h : i < a.size then pure a[i] else throw s!"missing argument {i}"
+
+def parseCounterOp (n : String) (a : Array Json) : Except String CounterOp :=
+  match n with
+  | "set" => do pure (.set (← argInt a 1))
+  | "add" => do pure (.add (← argInt a 1))
+  | "sub" => do pure (.sub (← argInt a 1))
+  | "inc" => pure .inc
+  | "get" => pure .get
+  | _ => throw s!"counter op {n}"
+
+def parseListOp (n : String) (a : Array Json) : Except String ListOp :=
+  match n with
+  | "reset" => do pure (.reset (← getVal (← argJson a 1)))
+  | "set" => do pure (.set (← argInt a 1) (← argInt a 2))
+  | "append" => do pure (.append (← argInt a 1))
+  | "extend" => do pure (.extend (← getInts (← argJson a 1)))
+  | "insert" => do pure (.insert (← argInt a 1) (← argInt a 2))
+  | "remove" => do pure (.remove (← argInt a 1))
+  | "pop" => do pure (.pop (← optInt a 1))
+  | "sort" => do pure (.sort (← optBool a 1))
+  | "index" => do pure (.index (← argInt a 1))
+  | "count" => do pure (.count (← argInt a 1))
+  | "get" => do pure (.get (← argInt a 1))
+  | "__getitem__" => do pure (.getitem (← argInt a 1))
+  | "__setitem__" => do pure (.setitem (← argInt a 1) (← argInt a 2))
+  | "__len__" => pure .len
+  | "rawData" => pure .rawData
+  | _ => throw s!"list op {n}"
+
+def parseDictOp (n : String) (a : Array Json) : Except String DictOp :=
+  match n with
+  | "reset" => do pure (.reset (← getVal (← argJson a 1)))
+  | "__setitem__" => do pure (.setitem (← argInt a 1) (← argInt a 2))
+  | "set" => do pure (.set (← argInt a 1) (← argInt a 2))
+  | "setdefault" => do pure (.setdefault (← argInt a 1) (← argInt a 2))
+  | "update" => do pure (.update (← getPairs (← argJson a 1)))
+  | "pop" => do pure (.pop (← argInt a 1) (← optInt a 2))
+  | "clear" => pure .clear
+  | "__getitem__" => do pure (.getitem (← argInt a 1))
+  | "get" => do pure (.get (← argInt a 1) (← optInt a 2))
+  | "__len__" => pure .len
+  | "__contains__" => do pure (.contains (← argInt a 1))
+  | "keys" => pure .keys
+  | "values" => pure .values
+  | "items" => pure .items
+  | "rawData" => pure .rawData
+  | _ => throw s!"dict op {n}"
+
+/-- set ops; `pop` also yields the oracle -/
+def parseSetOp (n : String) (a : Array Json) : Except String (SetOp × Option Int) :=
+  match n with
+  | "reset" => do pure (.reset (← getVal (← argJson a 1)), .none)
+  | "add" => do pure (.add (← argInt a 1), .none)
+  | "remove" => do pure (.remove (← argInt a 1), .none)
+  | "discard" => do pure (.discard (← argInt a 1), .none)
+  | "pop" => do pure (.pop, ← optInt a 1)
+  | "clear" => pure (.clear, .none)
+  | "update" => do pure (.update (← getInts (← argJson a 1)), .none)
+  | "rawData" => pure (.rawData, .none)
+  | "__len__" => pure (.len, .none)
+  | "__contains__" => do pure (.contains (← argInt a 1), .none)
+  | _ => throw s!"set op {n}"
+
+def parseQueueOp (n : String) (a : Array Json) : Except String QueueOp :=
+  match n with
+  | "qsize" => pure .qsize
+  | "empty" => pure .empty
+  | "__len__" => pure .len
+  | "full" => pure .full
+  | "put" => do pure (.put (← argInt a 1))
+  | "get" => do pure (.get (← optInt a 1))
+  | _ => throw s!"queue op {n}"
+
+/-- the states of all twelve interpreters (+ raw heapq list) -/
+inductive St
+  | bCounter (s : ReplCounter.State) | rCounter (c : Int)
+  | bList (s : ReplList.State) | rList (l : List Int)
+  | bDict (s : ReplDict.State) | rDict (d : PyDict.D)
+  | bSet (s : ReplSet.State) | rSet (s : PySet.S)
+  | bQueue (s : ReplQueue.State) | rQueue (q : PyQueue.Q)
+  | bPQ (s : ReplPriorityQueue.State) | rPQ (q : PyQueue.Q)
+  | heap (h : List Int)
+
+def initSt (cls side : String) (maxsize : Option Nat) : Except String St :=
+  match cls, side with
+  | "counter", "battery" => pure (.bCounter ReplCounter.init)
+  | "counter", "ref" => pure (.rCounter 0)
+  | "list", "battery" => pure (.bList ReplList.init)
+  | "list", "ref" => pure (.rList [])
+  | "dict", "battery" => pure (.bDict ReplDict.init)
+  | "dict", "ref" => pure (.rDict [])
+  | "set", "battery" => pure (.bSet ReplSet.init)
+  | "set", "ref" => pure (.rSet [])
+  | "queue", "battery" => pure (.bQueue (ReplQueue.init maxsize))
+  | "queue", "ref" => pure (.rQueue ⟨maxsize.getD 0, []⟩)
+  | "pq", "battery" => pure (.bPQ (ReplPriorityQueue.init maxsize))
+  | "pq", "ref" => pure (.rPQ ⟨maxsize.getD 0, []⟩)
+  | "heap", _ => pure (.heap [])
+  | _, _ => throw s!"unknown cls/side {cls}/{side}"
+
+/-- `_deserialize(pickle.loads(pickle.dumps(_serialize())))` into a freshly constructed battery
+(constructed with the default arguments: the attribute dictionary overrides everything). -/
+def snapshot : St → St
+  | .bCounter s => .bCounter (ReplCounter.deserialize (ReplCounter.serialize s) ReplCounter.init)
+  | .bList s => .bList (ReplList.deserialize (ReplList.serialize s) ReplList.init)
+  | .bDict s => .bDict (ReplDict.deserialize (ReplDict.serialize s) ReplDict.init)
+  | .bSet s => .bSet (ReplSet.deserialize (ReplSet.serialize s) ReplSet.init)
+  | .bQueue s => .bQueue (ReplQueue.deserialize (ReplQueue.serialize s) (ReplQueue.init .none))
+  | .bPQ s => .bPQ (ReplPriorityQueue.deserialize (ReplPriorityQueue.serialize s) (ReplPriorityQueue.init .none))
+  | s => s
+
+def stepSt (st : St) (n : String) (a : Array Json) : Except String (St × Res) :=
+  if n = "snapshot" then pure (snapshot st, .ok .none) else
+  match st with
+  | .bCounter s => do let (s', r) := ReplCounter.step s (← parseCounterOp n a); pure (.bCounter s', r)
+  | .rCounter s => do let (s', r) := RefCounter.step s (← parseCounterOp n a); pure (.rCounter s', r)
+  | .bList s => do let (s', r) := ReplList.step s (← parseListOp n a); pure (.bList s', r)
+  | .rList s => do let (s', r) := RefList.step s (← parseListOp n a); pure (.rList s', r)
+  | .bDict s => do let (s', r) := ReplDict.step s (← parseDictOp n a); pure (.bDict s', r)
+  | .rDict s => do let (s', r) := RefDict.step s (← parseDictOp n a); pure (.rDict s', r)
+  | .bSet s => do
+    let (op, oracle) ← parseSetOp n a
+    let choose : PySet.S → Int := fun cur => oracle.getD (cur.headD 0)
+    let (s', r) := ReplSet.step choose s op; pure (.bSet s', r)
+  | .rSet s => do
+    let (op, oracle) ← parseSetOp n a
+    let choose : PySet.S → Int := fun cur => oracle.getD (cur.headD 0)
+    let (s', r) := RefSet.step choose s op; pure (.rSet s', r)
+  | .bQueue s => do let (s', r) := ReplQueue.step s (← parseQueueOp n a); pure (.bQueue s', r)
+  | .rQueue s => do let (s', r) := RefQueue.step s (← parseQueueOp n a); pure (.rQueue s', r)
+  | .bPQ s => do let (s', r) := ReplPriorityQueue.step s (← parseQueueOp n a); pure (.bPQ s', r)
+  | .rPQ s => do let (s', r) := RefPQ.step s (← parseQueueOp n a); pure (.rPQ s', r)
+  | .heap h =>
+    match n with
+    | "push" => do pure (.heap (PyHeap.heappush h (← argInt a 1)), .ok .none)
+    | "pop" =>
+      match PyHeap.heappop h with
+      | .ok (x, h') => pure (.heap h', .ok (.int x))
+      | .error e => pure (.heap h, .err e)
+    | _ => throw s!"heap op {n}"
+
+def stContents : St → Val × Nat
+  | .bCounter s => (ReplCounter.contents s, 0) | .rCounter c => (.int c, 0)
+  | .bList s => (ReplList.contents s, 0) | .rList l => (.list l, 0)
+  | .bDict s => (ReplDict.contents s, 0) | .rDict d => (.dict d, 0)
+  | .bSet s => (ReplSet.contents s, 0) | .rSet s => (.set s, 0)
+  | .bQueue s => (ReplQueue.contents s, s.maxsize) | .rQueue q => (.list q.data, q.maxsize)
+  | .bPQ s => (ReplPriorityQueue.contents s, s.maxsize) | .rPQ q => (.list q.data, q.maxsize)
+  | .heap h => (.list h, 0)
+
+def handle (line : String) : Except String String := do
+  let j ← Json.parse line
+  let cls ← (← j.getObjVal? "cls").getStr?
+  let side ← (← j.getObjVal? "side").getStr?
+  let maxsize : Option Nat ← match j.getObjVal? "maxsize" with
+    | .ok .null => pure .none
+    | .ok m => do pure (some (← m.getNat?))
+    | .error _ => pure .none
+  let ops ← (← j.getObjVal? "ops").getArr?
+  let mut st ← initSt cls side maxsize
+  let mut out : Array Json := #[]
+  for o in ops do
+    let a ← o.getArr?
+    if a.size = 0 then throw "empty op"
+    let n ← a[0]!.getStr?
+    let (st', r) ← stepSt st n a
+    st := st'
+    out := out.push (resToJson r)
+  let (c, m) := stContents st
+  pure (Json.mkObj [("res", Json.arr out), ("state", valToJson c), ("maxsize", Json.num (JsonNumber.fromNat m))]).compress
+
+partial def loop (stdin stdout : IO.FS.Stream) : IO UInt32 := do
+  let line ← stdin.getLine
+  if line.isEmpty then return 0
+  let l := line.trimAscii.toString
+  if l.isEmpty then loop stdin stdout else
+  match handle l with
+  | .ok s => do stdout.putStrLn s; loop stdin stdout
+  | .error e => do
+    stdout.putStrLn (Json.mkObj [("error", Json.str e)]).compress
+    loop stdin stdout
 
 def run : IO UInt32 := do
-  IO.eprintln "driver component Batteries: not implemented"
-  return 3
+  let stdin ← IO.getStdin
+  let stdout ← IO.getStdout
+  let rc ← loop stdin stdout
+  stdout.flush
+  return rc
 
 end Driver.Batteries
